@@ -9,6 +9,8 @@ A *case* describes one hierarchy:
                                              variables only) referenced with DIAG-COMM-REF / DIAG-VARIABLE-REF
                                              from the library layer, 3 (unit groups only) defined locally with
                                              content that is identical in every layer (value-equal, distinct),
+                                             4 defined locally like 1, but the single-ECU job carries the short
+                                             name services have elsewhere and the service that of the jobs,
      "excl":    [[child, parent, name index], ...]   NOT-INHERITED entries,
      "excl_lists": ["comms","dops","tables","gnrs","vars"]   which NOT-INHERITED-* lists carry `excl`,
      "cats":    [...]                        categories that are instantiated (see CATEGORIES)}
@@ -77,9 +79,15 @@ def marker(layer: str, cat: str, name: str) -> str:
     return f"{layer}:{cat}:{name}"
 
 
-def request_bytes(name_index: int, layer_index: int) -> bytes:
-    """Request of the service named names[name_index] that is defined by layer layer_index (0xEE: library)."""
-    return bytes([0x10 + name_index, layer_index])
+def request_bytes(name_index: int, layer_index: int, swapped: bool = False) -> bytes:
+    """Request of the service for names[name_index] that is defined by layer layer_index (0xEE: library);
+    swapped: the service of a placement of kind 4 (it carries the short name of the jobs)."""
+    return bytes([(0x18 if swapped else 0x10) + name_index, layer_index])
+
+
+# placement kind 4 = defined locally like kind 1, but the two diag-comm kinds swap their short names: the layer has
+# a SINGLE-ECU-JOB `<name>` and a DIAG-SERVICE `<name>_j` (markers use the categories "job!" / "svc!")
+SWAPPED = {"svc": "svc!", "job": "job!"}
 
 
 U8 = {"k": "STD", "base": "A_UINT32", "bits": 8}
@@ -156,13 +164,24 @@ def _objects(lname: str, lidx: int, ltype: str, names_: List[str], row: List[int
         if "envdesc" in cats:
             spec["dops"].append({"kind": "envdesc", "name": spec_name("envdesc", nm), "long_name": mk("envdesc"), "param": "dtc",
                                  "envdatas": [spec_name("envdata", nm)]})
-        if "svc" in cats:
-            rq = "rq_" + nm
-            b = request_bytes(ni, 0xEE if is_lib else lidx)
-            spec["msgs"].append({"kind": "REQUEST", "name": rq, "params": [_cc("sid", b[0], 0), _cc("who", b[1], 1)]})
-            spec["svcs"].append({"name": spec_name("svc", nm), "long_name": mk("svc"), "request": rq})
-        if "job" in cats:
-            spec["svcs"].append({"job": True, "name": spec_name("job", nm), "long_name": mk("job")})
+        if kind == 4:
+            # kinds swapped: the SINGLE-ECU-JOB gets the short name the services have elsewhere and vice versa
+            if "job" in cats:
+                spec["svcs"].append({"job": True, "name": "job." + short_name("svc", nm), "long_name": marker(lname, SWAPPED["job"], nm)})
+            if "svc" in cats:
+                rq = "rqx_" + nm
+                b = request_bytes(ni, lidx, swapped=True)
+                spec["msgs"].append({"kind": "REQUEST", "name": rq, "params": [_cc("sid", b[0], 0), _cc("who", b[1], 1)]})
+                spec["svcs"].append({"name": "svc." + short_name("job", nm), "long_name": marker(lname, SWAPPED["svc"], nm),
+                                     "request": rq})
+        else:
+            if "svc" in cats:
+                rq = "rq_" + nm
+                b = request_bytes(ni, 0xEE if is_lib else lidx)
+                spec["msgs"].append({"kind": "REQUEST", "name": rq, "params": [_cc("sid", b[0], 0), _cc("who", b[1], 1)]})
+                spec["svcs"].append({"name": spec_name("svc", nm), "long_name": mk("svc"), "request": rq})
+            if "job" in cats:
+                spec["svcs"].append({"job": True, "name": spec_name("job", nm), "long_name": mk("job")})
         if "gnr" in cats:
             spec["msgs"].append({"kind": "GLOBAL-NEG-RESPONSE", "name": spec_name("gnr", nm), "long_name": mk("gnr"),
                                  "params": [_cc("sid", 0x7F, 0), _cc("nrc", 0x80 + ni, 1), _cc("who", lidx, 2)]})
@@ -298,3 +317,25 @@ def database_files(cases: List[Dict[str, Any]], cached: bool = True) -> Dict[str
             out[f"C{k}.odx-d"] = _strip_prefixed_short_names(emit.container(container_spec(case, cname=f"C{k}", prefix=prefix)))
     out[COMPARAM_SPEC + ".odx-c"] = emit.comparam_spec({"name": COMPARAM_SPEC, "prot_stacks": []})
     return out
+
+
+def split_files(case: Dict[str, Any], children_first: bool) -> List[Tuple[str, str]]:
+    """[(file name, XML)] in load order: the same hierarchy with ONE DIAG-LAYER-CONTAINER document per layer
+    (container `D_<layer>`), every PARENT-REF crossing documents (DOCREF/DOCTYPE=CONTAINER); parents' documents
+    first or children's documents first.  (Cases with library references are not split.)"""
+    from odxmodel import emit
+    specs = [l for _, l in _layer_specs(case, "")]
+    layer_types = {l["name"]: l["type"] for l in specs}
+    docs: List[Tuple[str, str]] = []
+    for l in specs:
+        for pr in l.get("parents", []):
+            pr["docref"] = "D_" + pr["layer"]
+            pr["doctype"] = "CONTAINER"
+        cname = "D_" + l["name"]
+        inner = names(cname) + X(emit.LAYER_TAG[l["type"]][0], _strip_prefixed_short_names(emit.layer(l, layer_types)))
+        docs.append((cname + ".odx-d", '<?xml version="1.0" encoding="UTF-8" standalone="no" ?>\n<ODX MODEL-VERSION="2.2.0" ' +
+                     emit.XSI + ">" + X("DIAG-LAYER-CONTAINER", inner, ID=cname) + "</ODX>"))
+    if children_first:
+        docs.reverse()
+    docs.append((COMPARAM_SPEC + ".odx-c", emit.comparam_spec({"name": COMPARAM_SPEC, "prot_stacks": []})))
+    return docs
